@@ -91,6 +91,59 @@ func (g *gen) container(ind string, depth int, ids *[]string, prefix string) {
 	}
 }
 
+// Family returns a few scripts that import the same files but define the variables those
+// files substitute differently (or not at all): what one compilation learns about an
+// imported file must not leak into the next one.
+func Family(tp *tape.Tape) ([]string, map[string]string) {
+	files := map[string]string{
+		"tpl.d2":   "env: {\n  label: ${who} Environment\n  vm: \"box of ${who}\"\n  note: |md\n    # for ${who}\n  |\n}\ncaption: hello-${who}\n",
+		"inner.d2": "leaf: ${who}-${suffix}\n",
+	}
+	names := []string{"Dev", "Qa", "Prod", "Stage"}
+	n := 2 + tp.Draw(2, "family.n")
+	var scripts []string
+	for i := 0; i < n; i++ {
+		var sb strings.Builder
+		who := names[(tp.Draw(len(names), "family.who")+i)%len(names)]
+		switch tp.Draw(4, "family.shape") {
+		case 0:
+			fmt.Fprintf(&sb, "vars: {\n  who: %s\n  suffix: s%d\n}\n...@tpl\nx: @inner\n", who, i)
+		case 1:
+			fmt.Fprintf(&sb, "a: {\n  vars: {\n    who: %s\n  }\n  ...@tpl\n}\nb: {\n  vars: {\n    who: %s%d\n  }\n  ...@tpl\n}\n", who, who, i)
+		case 2:
+			fmt.Fprintf(&sb, "vars: {\n  suffix: only-suffix-%d\n}\n...@tpl\n", i) // who unresolved: an error
+		case 3:
+			fmt.Fprintf(&sb, "vars: {\n  who: %s\n  suffix: z\n}\nlayers: {\n  l1: {\n    ...@tpl\n  }\n  l2: {\n    y: @inner\n  }\n}\n", who)
+		}
+		scripts = append(scripts, sb.String())
+	}
+	return scripts, files
+}
+
+// errorRich emits constructs whose compilation reports several errors, some of them
+// repeated (a glob or a scenario re-evaluates the key) and some sharing a position.
+func (g *gen) errorRich() {
+	tp := g.tp
+	if tp.Chance(1, 2, "err.array") {
+		g.sb.WriteString("ex.class: [${nope1}; ${nope2}; ${nope3}]\n")
+	}
+	if tp.Chance(1, 2, "err.glob") {
+		g.sb.WriteString("*.label: ${missing_in_glob}\n")
+	}
+	if tp.Chance(1, 2, "err.multi") {
+		g.sb.WriteString("ey: ${u1} and ${u2} {\n  tooltip: ${u3}\n  link: ${u1}\n}\n")
+	}
+	if tp.Chance(1, 2, "err.scenario") {
+		g.sb.WriteString("scenarios: {\n  s1: {\n    extra: ${only_in_s1}\n  }\n  s2: {\n    extra: ${only_in_s2}\n  }\n}\n")
+	}
+	if tp.Chance(1, 3, "err.misc") {
+		g.sb.WriteString("ez.shape: no_such_shape\nez.style.opacity: 7\nez -> ez.missing.deep: {\n  style.stroke-width: 99\n}\n")
+	}
+	if tp.Chance(1, 3, "err.spreadvar") {
+		g.sb.WriteString("ew: {\n  ...${not_a_map}\n}\n")
+	}
+}
+
 // Script returns a generated D2 script and the files it imports (nil when none).
 func Script(tp *tape.Tape) (string, map[string]string) {
 	g := &gen{tp: tp}
@@ -144,6 +197,14 @@ func Script(tp *tape.Tape) (string, map[string]string) {
 				g.sb.WriteString("  }\n")
 			}
 			g.sb.WriteString("}\n")
+		}
+	}
+	if tp.Chance(1, 4, "gen.errors") {
+		g.errorRich()
+		if tp.Chance(1, 2, "gen.errors.import") {
+			// an unresolved variable at 1:1 of an imported file and at 1:1 of the root
+			files = map[string]string{"bad.d2": "${imp_unresolved}: x\nq: ${imp_other}\n"}
+			return "${root_unresolved}: y\n" + g.sb.String() + "...@bad\n", files
 		}
 	}
 	if tp.Chance(1, 5, "gen.import") {
